@@ -247,16 +247,17 @@ def fresh(typ, name='fresh'):
 
 
 def explore_choices(run, nbits, budget_s=60.0, pin=(), samples=2):
-    """Exhaustive exploration of a tree of boolean choices with z3 as the
-    bookkeeper (all-SAT with prefix generalisation).
+    """Exhaustive exploration of boolean choice vectors with z3 as the
+    bookkeeper (all-SAT with generalisation to the bits actually read).
 
-    ``run(bits)`` executes the scenario natively with the given choice vector
-    (list of bools, length ``nbits``) and returns (verdict, consumed) where
+    ``run(vec)`` executes the scenario natively with the choice vector
+    ``vec`` (list of bools of length ``nbits``) and returns (verdict, read):
     verdict is None (property held), 'skip' (precondition not met) or a
-    violation description, and ``consumed`` is the number of leading bits the
-    run actually read.  After each run the consumed prefix is blocked; the
-    exploration is complete when z3 reports unsat: every choice vector then
-    shares a consumed prefix with an explored run and behaves identically.
+    violation description; ``read`` is the set of vector positions the run
+    consulted.  After each run the cube "same values on the positions read"
+    is blocked.  When z3 reports unsat, every choice vector agrees with an
+    explored run on all positions that run read, hence behaves identically:
+    the exploration is complete.
     """
     t0 = time.time()
     bits = [z3.Bool(f'c{i}') for i in range(nbits)]
@@ -285,24 +286,26 @@ def explore_choices(run, nbits, budget_s=60.0, pin=(), samples=2):
         m = s.model()
         vec = [bool(z3.is_true(m.eval(b, model_completion=True)))
                for b in bits]
-        verdict, consumed = run(vec)
+        verdict, read = run(vec)
         paths += 1
-        consumed = max(min(consumed, nbits), len(pin))
+        read = sorted(i for i in set(read) | set(range(len(pin)))
+                      if i < nbits)
+        shown = {str(i): int(vec[i]) for i in read}
         if verdict is None:
             ok += 1
             if len(smp) < samples:
-                smp.append({'bits': [int(x) for x in vec[:consumed]]})
+                smp.append({'choices_read': shown})
         elif verdict == 'skip':
             skipped += 1
         else:
-            cex = {'bits': [int(x) for x in vec[:consumed]]}
+            cex = {'bits': [int(x) for x in vec]}
             msg = verdict
             status = 'VIOLATED'
             break
-        if consumed == 0:
+        if not read:
             status = 'CONFIRMED' if ok > 0 else 'VACUOUS'
             break
-        s.add(z3.Or([bits[i] != vec[i] for i in range(consumed)]))
+        s.add(z3.Or([bits[i] != vec[i] for i in read]))
     return {
         'status': status, 'exhausted': status in ('CONFIRMED', 'VACUOUS'),
         'paths': paths, 'paths_ok': ok, 'paths_skipped': skipped,
